@@ -21,19 +21,21 @@ Methods == {"tempo", "pt+dynamics", "mftempo", "tebd", "gibbs"}
 Mems    == {"full", "dkmax", "dkmax+addcorr"}
 Systems == {"static", "timedep", "dissipative"}
 Inits   == {"pure", "mixed", "rankdef"}
-Couplings == {"diagonal", "real", "complex"}     \* coupling operator diagonal / real non-diagonal / complex Hermitian
+Couplings == {"diagonal", "real", "complex", "degenerate"}     \* coupling operator diagonal / real non-diagonal / complex Hermitian / diagonal with a repeated eigenvalue
 
 Valid(c) ==
     /\ (c.method = "tebd" => (c.mem = "full" /\ ~c.unique))
     /\ (c.method = "gibbs" => (c.mem = "full" /\ ~c.unique /\ c.sys = "static" /\ c.init = "mixed" /\ c.temp = 1))
     /\ (c.method = "mftempo" => c.sys # "static")
     /\ (c.d = 3 => c.alpha # 3)                \* strong coupling only for qubits (cost)
-    /\ (c.method = "gibbs" => c.coupling = "diagonal")          \* GibbsTempo supports diagonal couplings only
+    /\ (c.method = "gibbs" => c.coupling \in {"diagonal", "degenerate"})          \* GibbsTempo supports diagonal couplings only
     /\ (c.file => c.method \in {"pt+dynamics", "tebd"})          \* file-backed process tensors
-    /\ (c.coupling # "diagonal" => c.d = 2)
+    /\ (c.coupling \in {"real", "complex"} => c.d = 2)
+    /\ (c.coupling = "degenerate" => c.d = 3)
+    /\ (c.restart => c.method = "tebd")              \* chain computation continued from its exported chain state
 
 ConfigSpace == { c \in [method : Methods, mem : Mems, unique : BOOLEAN, d : {2, 3}, sys : Systems,
-                        alpha : 1..3, temp : 0..1, init : Inits, coupling : Couplings, file : BOOLEAN] : Valid(c) }
+                        alpha : 1..3, temp : 0..1, init : Inits, coupling : Couplings, file : BOOLEAN, restart : BOOLEAN] : Valid(c) }
 
 VARIABLES mode, cfg, run, l, bad
 
